@@ -74,8 +74,18 @@ theorem cut_reconnect_state (s : St) (hc : s.conn = .connected) (hr : s.redirect
                streamIdSet := false, streamVersionSet := false, authenticated := false, sessionStarted := false,
                smEnabled := false, smResumed := false, ackEnabled := false, bind2Bound := false,
                pendingIq := s.pendingIq - (if s.canResume then 0 else s.pendingIq),
+               pendingRetry := s.pendingRetry - (if s.canResume then 0 else s.pendingRetry),
                hasToken := s.cfg.token, target := connectTarget s, peerShutdown := false } := by
-  simp [cutAndReconnect, run, step, connectTo, socketGone, hc, onSocketDisconnected, hr, closeSession, handleStart, connectTarget]
+  have hdown : ∀ (n : Nat) (t : St), t.ackEnabled = false → t.conn ≠ .connected → (retryN n t).1 = t := by
+    intro n
+    induction n with
+    | zero => intro t _ _; rfl
+    | succ n ih =>
+      intro t ha hcn
+      have e : (sendIq t).1 = t := by simp [sendIq, sendStanza, ha, hcn]
+      show (retryN n (sendIq t).1).1 = t
+      rw [e]; exact ih t ha hcn
+  simp [cutAndReconnect, run, step, connectTo, socketGone, hc, onSocketDisconnected, hr, closeSession, handleStart, connectTarget, hdown]
 
 /-! ### frame facts about `openSession` -/
 
@@ -112,6 +122,11 @@ theorem sendStanza_core (s : St) (k : Kind) :
   · exact ⟨⟨rfl, rfl, rfl, rfl, rfl, rfl, rfl, rfl, rfl, rfl, rfl, rfl, rfl⟩, rfl, rfl⟩
   · exact ⟨SameCore.refl s, rfl, rfl⟩
 
+theorem sendIqRetry_core (s : St) : SameCore s (sendIqRetry s).1 ∧ (sendIqRetry s).1.sessionStarted = s.sessionStarted := by
+  unfold sendIqRetry sendIq sendStanza
+  dsimp only
+  (repeat' split) <;> exact ⟨⟨rfl, rfl, rfl, rfl, rfl, rfl, rfl, rfl, rfl, rfl, rfl, rfl, rfl⟩, rfl⟩
+
 theorem csiSendState_core (s : St) :
     SameCore s (csiSendState s).1 ∧ (csiSendState s).1.sessionStarted = s.sessionStarted ∧
     (csiSendState s).1.pendingIq = s.pendingIq := by
@@ -130,25 +145,33 @@ theorem csiOnSessionOpened_core (s : St) (b : Bool) :
     · exact ⟨⟨rfl, rfl, rfl, rfl, rfl, rfl, rfl, rfl, rfl, rfl, rfl, rfl, rfl⟩, rfl, rfl⟩
     · exact csiSendState_core s
 
+theorem retryN_core (n : Nat) (s : St) : SameCore s (retryN n s).1 ∧ (retryN n s).1.sessionStarted = s.sessionStarted :=
+  ⟨⟨by simp, by simp, by simp, by simp, by simp, by simp, by simp, by simp, by simp, by simp, by simp, by simp, by simp⟩, by simp⟩
+
+theorem cancelOld_core (s : St) :
+    SameCore s (cancelOld s).1 ∧ (cancelOld s).1.sessionStarted = s.sessionStarted ∧
+    (s.pendingRetry = 0 → (cancelOld s).1.pendingIq = (if s.smResumed then s.pendingIq else 0)) := by
+  unfold cancelOld
+  split
+  · rename_i h
+    exact ⟨SameCore.refl s, rfl, fun _ => by simp [h]⟩
+  · rename_i h
+    have c := retryN_core s.pendingRetry { s with pendingIq := 0, pendingRetry := 0 }
+    have e0 : SameCore s { s with pendingIq := 0, pendingRetry := 0 } := ⟨rfl, rfl, rfl, rfl, rfl, rfl, rfl, rfl, rfl, rfl, rfl, rfl, rfl⟩
+    refine ⟨e0.trans c.1, c.2, fun h0 => ?_⟩
+    simp [h0, retryN, h]
+
 /-- what `openSession` does to the fields the C10 theorems talk about -/
 theorem openSession_spec (s : St) :
     .sig .connected ∈ (openSession s).2 ∧ (openSession s).1.sessionStarted = true ∧
     SameCore s (openSession s).1 ∧
-    (openSession s).1.pendingIq = (if s.smResumed then s.pendingIq else 0) := by
+    (s.pendingRetry = 0 → (openSession s).1.pendingIq = (if s.smResumed then s.pendingIq else 0)) := by
   unfold openSession
   dsimp only
-  generalize hs2 : (if ({ s with sessionStarted := true, bind2Bound := false, canResume := s.smEnabled && s.canResume } : St).smResumed = true
-      then ({ s with sessionStarted := true, bind2Bound := false, canResume := s.smEnabled && s.canResume } : St)
-      else { ({ s with sessionStarted := true, bind2Bound := false, canResume := s.smEnabled && s.canResume } : St) with pendingIq := 0 }) = s2
-  have h2 : SameCore s s2 ∧ s2.sessionStarted = true ∧ s2.pendingIq = (if s.smResumed then s.pendingIq else 0) := by
-    subst hs2
-    split
-    · rename_i h
-      exact ⟨⟨rfl, rfl, rfl, rfl, rfl, rfl, rfl, rfl, rfl, rfl, rfl, rfl, rfl⟩, rfl, by simp_all⟩
-    · rename_i h
-      exact ⟨⟨rfl, rfl, rfl, rfl, rfl, rfl, rfl, rfl, rfl, rfl, rfl, rfl, rfl⟩, rfl, by simp_all⟩
-  have f3 := csiOnSessionOpened_core s2 s.bind2Bound
-  generalize csiOnSessionOpened s2 s.bind2Bound = r3 at f3
+  have h2 := cancelOld_core { s with sessionStarted := true, bind2Bound := false, canResume := s.smEnabled && s.canResume }
+  generalize cancelOld { s with sessionStarted := true, bind2Bound := false, canResume := s.smEnabled && s.canResume } = r2 at h2
+  have f3 := csiOnSessionOpened_core r2.1 s.bind2Bound
+  generalize csiOnSessionOpened r2.1 s.bind2Bound = r3 at f3
   generalize hr4 : (if r3.1.authenticated = true then sendStanza r3.1 (.iqRequest true) else (r3.1, [])) = r4
   have f4 : SameCore r3.1 r4.1 ∧ r4.1.sessionStarted = r3.1.sessionStarted ∧ r4.1.pendingIq = r3.1.pendingIq := by
     subst hr4
@@ -163,8 +186,11 @@ theorem openSession_spec (s : St) :
     · exact ⟨SameCore.refl _, rfl, rfl⟩
   refine ⟨by simp, ?_, ?_, ?_⟩
   · rw [f5.2.1, f4.2.1, f3.2.1]; exact h2.2.1
-  · exact ((h2.1.trans f3.1).trans f4.1).trans f5.1
-  · rw [f5.2.2, f4.2.2, f3.2.2]; exact h2.2.2
+  · have e0 : SameCore s { s with sessionStarted := true, bind2Bound := false, canResume := s.smEnabled && s.canResume } :=
+      ⟨rfl, rfl, rfl, rfl, rfl, rfl, rfl, rfl, rfl, rfl, rfl, rfl, rfl⟩
+    exact (((e0.trans h2.1).trans f3.1).trans f4.1).trans f5.1
+  · intro h0
+    rw [f5.2.2, f4.2.2, f3.2.2]; exact h2.2.2 h0
 
 /-! ### one negotiation step at a time
 
@@ -443,6 +469,25 @@ def nD (os : List Out) : Nat := os.count (.sig .disconnected)
 
 @[simp] theorem nC_sendStanza (s : St) (k : Kind) : nC (sendStanza s k).2 = 0 := by unfold sendStanza; split <;> simp
 @[simp] theorem nD_sendStanza (s : St) (k : Kind) : nD (sendStanza s k).2 = 0 := by unfold sendStanza; split <;> simp
+@[simp] theorem nC_sendIq' (s : St) : nC (sendIq s).2 = 0 := by unfold sendIq; dsimp only; split <;> simp
+@[simp] theorem nD_sendIq' (s : St) : nD (sendIq s).2 = 0 := by unfold sendIq; dsimp only; split <;> simp
+@[simp] theorem nC_sendIqRetry (s : St) : nC (sendIqRetry s).2 = 0 := by unfold sendIqRetry; dsimp only; split <;> simp
+@[simp] theorem nD_sendIqRetry (s : St) : nD (sendIqRetry s).2 = 0 := by unfold sendIqRetry; dsimp only; split <;> simp
+@[simp] theorem nC_retryN (n : Nat) (s : St) : nC (retryN n s).2 = 0 := by
+  induction n generalizing s with
+  | zero => rfl
+  | succ n ih => simp [retryN, ih]
+@[simp] theorem nD_retryN (n : Nat) (s : St) : nD (retryN n s).2 = 0 := by
+  induction n generalizing s with
+  | zero => rfl
+  | succ n ih => simp [retryN, ih]
+@[simp] theorem nC_cancelOld (s : St) : nC (cancelOld s).2 = 0 := by unfold cancelOld; split <;> simp
+@[simp] theorem nD_cancelOld (s : St) : nD (cancelOld s).2 = 0 := by unfold cancelOld; split <;> simp
+@[simp] theorem closeSession_conn (s : St) : (closeSession s).1.conn = s.conn := by unfold closeSession; simp
+@[simp] theorem closeSession_sessionStarted (s : St) : (closeSession s).1.sessionStarted = false := by unfold closeSession; simp
+@[simp] theorem closeSession_listener (s : St) : (closeSession s).1.listener = s.listener := by unfold closeSession; simp
+@[simp] theorem closeSession_authenticated (s : St) : (closeSession s).1.authenticated = s.authenticated := by unfold closeSession; simp
+@[simp] theorem closeSession_encrypted (s : St) : (closeSession s).1.encrypted = s.encrypted := by unfold closeSession; simp
 @[simp] theorem nC_enableAck (s : St) : nC (enableAck s).2 = 0 := by unfold enableAck; dsimp only; split <;> simp
 @[simp] theorem nD_enableAck (s : St) : nD (enableAck s).2 = 0 := by unfold enableAck; dsimp only; split <;> simp
 @[simp] theorem nC_csiSendState (s : St) : nC (csiSendState s).2 = 0 := by unfold csiSendState; split <;> simp
@@ -654,7 +699,7 @@ theorem idleGuarded_done (s : St) (e : El) (hl : s.listener = .idle) : Done s (i
   unfold idleHandle'
   split
   · exact handleFeatures_done s _ hl
-  all_goals first | exact done_of_zero (by simp) | (split <;> exact done_of_zero (by simp))
+  all_goals first | exact done_of_zero (by simp) | ((repeat' split) <;> exact done_of_zero (by simp))
 
 theorem idleHandle_done (s : St) (e : El) (hl : s.listener = .idle) : Done s (idleHandle s e) := by
   unfold idleHandle
@@ -790,6 +835,7 @@ theorem step_done (s : St) (e : Ev) :
   | socketError => left; simp [step]
   | socketDisconnected => left; simp [step]
   | sendIq => left; simp only [step, sendIq]; cnt_crush
+  | sendIqRetry => left; simp [step]
   | recvWhitespace => left; simp [step]
   | recvPartial => left; simp only [step]; split <;> simp
   | tick => left; rcases tick_cases s with h | ⟨k, h⟩ <;> rw [h] <;> simp [send]
@@ -839,7 +885,7 @@ theorem effD_quiet {b : Bool} {r : R} (hD : nD r.2 = 0) (hs : r.1.sessionStarted
   Or.inl ⟨hD, fun _ => hs⟩
 
 theorem closeSession_effD (s : St) (hc : s.conn ≠ .connected) : EffD s.sessionStarted (closeSession s) :=
-  Or.inr ⟨by simp, by simp, rfl, hc⟩
+  Or.inr ⟨by simp [closeSession], by simp [closeSession], by simp, by simpa using hc⟩
 
 theorem onSocketDisconnected_effD (s : St) (hc : s.conn = .disconnected) :
     EffD s.sessionStarted (onSocketDisconnected s) := by
@@ -847,7 +893,7 @@ theorem onSocketDisconnected_effD (s : St) (hc : s.conn = .disconnected) :
   dsimp only
   split
   · split
-    · exact Or.inr ⟨by simp, by simp, rfl, by simp⟩
+    · exact Or.inr ⟨by simp [closeSession], by simp [closeSession], by simp, by simp⟩
     · rename_i hss
       exact effD_quiet (by simp) rfl
   · exact closeSession_effD { s with authenticated := false } (by simp [hc])
@@ -981,7 +1027,7 @@ theorem idleGuarded_effD (s : St) (e : El) : EffD s.sessionStarted (idleGuarded 
   · exact effD_quiet (by simp) rfl
   · exact sendStanza_effD s _
   · exact sendStanza_effD s _
-  · split <;> exact effD_quiet (by simp) rfl
+  · (repeat' split) <;> exact effD_quiet (by simp) rfl
   · exact effD_quiet (by simp) rfl
   · exact effD_quiet (by simp) rfl
   · exact effD_quiet (by simp) rfl
@@ -1150,6 +1196,7 @@ theorem step_effD (s : St) (e : Ev) : EffD s.sessionStarted (step s e) := by
     split
     · exact effD_quiet (by simp) h
     · exact effD_quiet (by simp) h
+  | sendIqRetry => exact effD_quiet (by simp [step]) (sendIqRetry_core s).2
   | recvWhitespace => exact effD_quiet (by simp [step]) rfl
   | recvPartial => simp only [step]; split <;> exact effD_quiet (by simp) rfl
   | tick => rcases tick_cases s with h | ⟨k, h⟩ <;> rw [h] <;> exact effD_quiet (by simp [send]) rfl
@@ -1196,7 +1243,7 @@ theorem handleStream_keeps_listener (s : St) (v i : Bool)
 def JP (s : St) : Prop := s.sessionStarted = true → s.listener = .idle
 
 theorem onSocketDisconnected_listener (s : St) : (onSocketDisconnected s).1.listener = s.listener := by
-  unfold onSocketDisconnected closeSession; dsimp only; (repeat' split) <;> rfl
+  unfold onSocketDisconnected; dsimp only; (repeat' split) <;> simp
 theorem socketGone_listener (s : St) : (socketGone s).1.listener = s.listener := by
   unfold socketGone; (repeat' split) <;> simp [onSocketDisconnected_listener]
 theorem connectTo_listener (s : St) : (connectTo s).1.listener = s.listener := socketGone_listener s
@@ -1222,9 +1269,7 @@ theorem idleGuarded_nf (s : St) (e : El) (hl : s.listener = .idle) (hnf : ∀ f,
   · exact ⟨hl, by simp⟩
   · exact ⟨by rw [(sendStanza_core s _).1.listener]; exact hl, by simp⟩
   · exact ⟨by rw [(sendStanza_core s _).1.listener]; exact hl, by simp⟩
-  · split
-    · exact ⟨hl, by simp⟩
-    · exact ⟨hl, by simp⟩
+  · (repeat' split) <;> exact ⟨hl, by simp⟩
   · exact ⟨hl, by simp⟩
   · exact ⟨hl, by simp⟩
   · exact ⟨hl, by simp⟩
@@ -1287,6 +1332,8 @@ theorem step_j (s : St) (e : Ev) (hj : JP s) (hconf : noNegotiationInSession s e
         split
         · exact ⟨fun _ => by rw [hc]; exact hl, by simp⟩
         · exact ⟨fun _ => by show (sendStanza s (.iqRequest false)).1.listener = _; rw [hc]; exact hl, by simp⟩
+      | sendIqRetry =>
+        exact ⟨fun _ => by show (sendIqRetry s).1.listener = _; rw [(sendIqRetry_core s).1.listener]; exact hl, by simp [step]⟩
       | recvWhitespace => exact ⟨fun _ => hl, by simp [step]⟩
       | recvPartial => simp only [step]; split <;> exact ⟨fun _ => hl, by simp⟩
       | tick => rcases tick_cases s with h | ⟨k, h⟩ <;> rw [h] <;> exact ⟨fun _ => hl, by simp [send]⟩
@@ -1464,13 +1511,13 @@ theorem run_altEnd (evs : List Ev) (s : St) : altEnd s.sessionStarted (run s evs
 def CK (s : St) (r : R) : Prop := r.1.conn = s.conn ∨ r.1.sessionStarted = false
 
 theorem onSocketDisconnected_noSession (s : St) : (onSocketDisconnected s).1.sessionStarted = false := by
-  unfold onSocketDisconnected closeSession
+  unfold onSocketDisconnected
   dsimp only
   split
   · split
-    · rfl
+    · simp
     · rename_i h; simpa using h
-  · rfl
+  · simp
 
 theorem socketClose_ck (s : St) : CK s (socketClose s) := by
   unfold socketClose
@@ -1579,7 +1626,7 @@ theorem idleGuarded_ck (s : St) (e : El) : CK s (idleGuarded s e) := by
   · exact ck_same rfl
   · exact ck_same (sendStanza_core s _).1.conn
   · exact ck_same (sendStanza_core s _).1.conn
-  · split <;> exact ck_same rfl
+  · (repeat' split) <;> exact ck_same rfl
   · exact ck_same rfl
   · exact ck_same rfl
   · exact ck_same rfl
@@ -1762,6 +1809,13 @@ theorem step_minv (s : St) (e : Ev) (hm : MInv s) : MInv (step s e).1 := by
       show (sendStanza s (.iqRequest false)).1.conn = _
       rw [hc.1.conn]
       exact hm (by rw [← hc.2.1]; exact hss)
+  | sendIqRetry =>
+    intro hss
+    have c := sendIqRetry_core s
+    show (sendIqRetry s).1.conn = _
+    rw [c.1.conn]
+    have hss' : (sendIqRetry s).1.sessionStarted = true := hss
+    exact hm (by rw [← c.2]; exact hss')
   | recvWhitespace => exact hm
   | recvPartial => simp only [step]; split <;> exact hm
   | tick => rcases tick_cases s with h | ⟨k, h⟩ <;> rw [h] <;> exact hm
@@ -2446,7 +2500,7 @@ theorem idleGuarded_aok (s : St) (e : El) (hc : s.conn = .connected) (hl : s.lis
     exact Or.inr (Or.inr ⟨c.1.authenticated, c.2.1, by rw [c.1.listener, hl]; exact notL3_idle⟩)
   · have c := sendStanza_core s (.iqReply true)
     exact Or.inr (Or.inr ⟨c.1.authenticated, c.2.1, by rw [c.1.listener, hl]; exact notL3_idle⟩)
-  · split <;> exact Or.inr (Or.inr ⟨rfl, rfl, by rw [hl]; exact notL3_idle⟩)
+  · (repeat' split) <;> exact Or.inr (Or.inr ⟨rfl, rfl, by rw [hl]; exact notL3_idle⟩)
   · exact Or.inr (Or.inr ⟨rfl, rfl, by rw [hl]; exact notL3_idle⟩)
   · exact Or.inr (Or.inr ⟨rfl, rfl, by rw [hl]; exact notL3_idle⟩)
   · exact Or.inr (Or.inr ⟨rfl, rfl, by rw [hl]; exact notL3_idle⟩)
@@ -2628,6 +2682,16 @@ theorem step_ainv (s : St) (e : Ev) (hi : AInv s) (hm : MInv s) (hd : demandsAut
     split
     · exact key
     · exact key
+  | sendIqRetry =>
+    have c := sendIqRetry_core s
+    refine ⟨fun hs => ?_, fun hc hl => ?_⟩
+    · have hs' : (sendIqRetry s).1.sessionStarted = true := hs
+      show (sendIqRetry s).1.authenticated = true
+      rw [c.1.authenticated]; exact hi.1 (by rw [← c.2]; exact hs')
+    · have hc' : (sendIqRetry s).1.conn = .connected := hc
+      have hl' : L3 (sendIqRetry s).1.listener := hl
+      show (sendIqRetry s).1.authenticated = true
+      rw [c.1.authenticated]; exact hi.2 (by rw [← c.1.conn]; exact hc') (by rw [← c.1.listener]; exact hl')
   | recvWhitespace => exact hi
   | recvPartial => simp only [step]; split <;> exact ⟨hi.1, hi.2⟩
   | tick => rcases tick_cases s with h | ⟨k, h⟩ <;> rw [h] <;> exact hi
@@ -2675,6 +2739,7 @@ theorem run_ainv (evs : List Ev) (s : St) (hi : AInv s) (hm : MInv s) (hd : Alon
 /-- the application sends requests only while `isConnected()` and calls `connectToServer` only while disconnected -/
 def appUsesSession (s : St) : Ev → Prop
   | .sendIq => isConnected s = true
+  | .sendIqRetry => isConnected s = true
   | _ => True
 
 /-- with TLS required: the pre-TLS invariant, "session flag only on a connected socket", and "no session on a clear link" -/
@@ -2706,6 +2771,7 @@ theorem nc_step (s : St) (e : Ev) (hnc : NC s) (h3 : appWaits s e) :
   | closeTail => exact Or.inl (disconnectFromHost_nc s hnc).2
   | recv el => exact Or.inl (recv_nc el s hnc).2
   | sendIq => exact Or.inl (sendIq_nc s hnc).2
+  | sendIqRetry => exact Or.inl (sendIqRetry_nc s hnc).2
 
 theorem nC_starttlsHandle (s : St) (e : El) : nC (starttlsHandle s e).2 = 0 := by
   unfold starttlsHandle; split <;> simp
@@ -2729,6 +2795,7 @@ theorem clear_step_nC0 (s : St) (e : Ev) (hreq : s.cfg.tls = .required) (hclear 
   | socketError => simp [step]
   | socketDisconnected => simp [step]
   | sendIq => exact absurd h3 hclear
+  | sendIqRetry => exact absurd h3 hclear
   | recvWhitespace => simp [step]
   | recvPartial => simp only [step]; split <;> simp
   | tick => rcases tick_cases s with h | ⟨k, h⟩ <;> rw [h] <;> simp [send]
@@ -2786,6 +2853,14 @@ theorem appWaits_of_appUsesSession (s : St) (e : Ev) (hg : GInv s) (ha : appUses
   obtain ⟨hinv, hm, hs3⟩ := hg
   cases e with
   | sendIq =>
+    have hi : isConnected s = true := ha
+    simp [isConnected] at hi
+    show NC s
+    by_cases hnc : NC s
+    · exact hnc
+    · have := hs3 hnc
+      rw [this] at hi; cases hi.2
+  | sendIqRetry =>
     have hi : isConnected s = true := ha
     simp [isConnected] at hi
     show NC s
@@ -2989,6 +3064,8 @@ theorem el_entered_only_by_a_write (s : St) (e : Ev) (hpre : ¬ EL s.listener) (
     split
     · rw [hc]; exact hpre
     · show ¬ EL (sendStanza s (.iqRequest false)).1.listener; rw [hc]; exact hpre
+  | sendIqRetry =>
+    exfalso; revert hpost; show ¬ EL (sendIqRetry s).1.listener; rw [(sendIqRetry_core s).1.listener]; exact hpre
   | recvWhitespace => exact absurd hpost hpre
   | recvPartial => exfalso; revert hpost; simp only [step]; split <;> exact hpre
   | tick => exfalso; revert hpost; rcases tick_cases s with h | ⟨k, h⟩ <;> rw [h] <;> exact hpre
@@ -3084,6 +3161,7 @@ theorem session_opened_from (s : St) (e : Ev) (h : nC (step s e).2 ≠ 0) :
   | socketError => exfalso; apply h; simp [step]
   | socketDisconnected => exfalso; apply h; simp [step]
   | sendIq => exfalso; apply h; simp only [step, sendIq]; cnt_crush
+  | sendIqRetry => exfalso; apply h; simp [step]
   | recvWhitespace => exfalso; apply h; simp [step]
   | recvPartial => exfalso; apply h; simp only [step]; split <;> simp
   | tick => exfalso; apply h; rcases tick_cases s with h' | ⟨k, h'⟩ <;> rw [h'] <;> simp [send]
